@@ -42,401 +42,9 @@ func checkC03(r *Run) {
 
 // ---- R1 ---------------------------------------------------------------------
 
-func lexerEOFRule(r *Run, rule string, m *lexerModel) {
-	w := r.W
-	if len(m.problems) > 0 || m.insideTk == nil || m.nextTok == nil {
-		r.Lost(rule, "lexer model: "+strings.Join(m.problems, "; "))
-		return
-	}
-	for _, f := range w.Funcs("lexer") {
-		inspectBody(f.Decl.Body, false, func(n ast.Node) bool {
-			switch l := n.(type) {
-			case *ast.ForStmt:
-				con := "loop " + short(w.Fset, l.Cond)
-				if l.Cond == nil {
-					r.Bad(rule, f.Name(), "loop without condition", w.Pos(l.Pos()), "an unconditional loop in the lexer cannot be shown to stop at end of input")
-					return true
-				}
-				v, ok := m.evalBytePred(f.Pkg.TypesInfo, l.Cond, m.isChField, 0)
-				switch {
-				case !ok:
-					r.Bad(rule, f.Name(), con, w.Pos(l.Pos()), "the loop condition is not a predicate over the current character; it cannot be shown to be false at end of input")
-				case v:
-					r.Bad(rule, f.Name(), con, w.Pos(l.Pos()), "the loop condition is TRUE for the NUL sentinel: at end of input the loop never ends")
-				default:
-					r.Ok(rule, f.Name(), con, w.Pos(l.Pos()), "false for ch = 0")
-				}
-			case *ast.RangeStmt:
-				r.Ok(rule, f.Name(), "range "+short(w.Fset, l.X), w.Pos(l.Pos()), "bounded")
-			}
-			return true
-		})
-	}
-	// both token functions return EOF on NUL
-	// outer: an if whose condition is ch == 0 and whose body returns a token typed EOF
-	okOuter := false
-	inspectBody(m.nextTok.Decl.Body, false, func(n ast.Node) bool {
-		ifs, ok := n.(*ast.IfStmt)
-		if !ok {
-			return true
-		}
-		if set, ok := m.byteSet(m.info, ifs.Cond, m.isChField); ok && len(set) == 1 && set[0] == 0 {
-			setsEOF, returns := false, false
-			for _, st := range ifs.Body.List {
-				if as, ok := st.(*ast.AssignStmt); ok && len(as.Rhs) == 1 {
-					if _, fld := fieldOf(m.info, as.Lhs[0]); fld != nil && fld.Name() == "Type" {
-						if s, ok := constString(m.info, as.Rhs[0]); ok && s == "EOF" {
-							setsEOF = true
-						}
-					}
-				}
-				if _, ok := st.(*ast.ReturnStmt); ok {
-					returns = true
-				}
-			}
-			okOuter = setsEOF && returns
-		}
-		return true
-	})
-	if okOuter {
-		r.Ok(rule, m.nextTok.Name(), "EOF token on NUL", w.Pos(m.nextTok.Decl.Pos()), "if ch == 0 { ... Type = EOF; return }")
-	} else {
-		r.Bad(rule, m.nextTok.Name(), "EOF token on NUL", w.Pos(m.nextTok.Decl.Pos()), "outside a tag the lexer must return EOF once the input is exhausted")
-	}
-	okInside := false
-	for _, a := range m.arms {
-		if !a.isEOF {
-			continue
-		}
-		for _, p := range a.paths {
-			if p.tokTypeOK && p.tokType == "EOF" && !p.recursive {
-				okInside = true
-			}
-		}
-	}
-	if okInside {
-		r.Ok(rule, m.insideTk.Name(), "case 0 -> EOF", w.Pos(m.sw.Pos()), "inside a tag NUL yields EOF")
-	} else {
-		r.Bad(rule, m.insideTk.Name(), "case 0 -> EOF", w.Pos(m.sw.Pos()), "inside a tag the lexer must return EOF once the input is exhausted")
-	}
-}
-
 // ---- R8 ---------------------------------------------------------------------
 
-func cursorInvariantRule(r *Run, rule string, m *lexerModel) {
-	w := r.W
-	if len(m.problems) > 0 || m.readChar == nil {
-		r.Lost(rule, "lexer model: "+strings.Join(m.problems, "; "))
-		return
-	}
-	f := m.readChar
-	info := m.info
-	// the EOF branch: if <readPos> >= len(input) { ch = 0; position = len(input); ...; return }
-	isLenInput := func(e ast.Expr) bool {
-		c, ok := unparen(e).(*ast.CallExpr)
-		if !ok || builtinName(info, c) != "len" || len(c.Args) != 1 {
-			return false
-		}
-		_, fld := fieldOf(info, c.Args[0])
-		return fld == m.input
-	}
-	var eofIf *ast.IfStmt
-	for _, st := range f.Decl.Body.List {
-		ifs, ok := st.(*ast.IfStmt)
-		if !ok {
-			continue
-		}
-		if be, ok := unparen(ifs.Cond).(*ast.BinaryExpr); ok && be.Op == token.GEQ && isLenInput(be.Y) {
-			if _, fld := fieldOf(info, be.X); fld != nil {
-				eofIf = ifs
-			}
-		}
-	}
-	if eofIf == nil {
-		r.Bad(rule, f.Name(), "no end-of-input branch", w.Pos(f.Decl.Pos()), "readChar must test 'readPosition >= len(input)' before indexing")
-		return
-	}
-	setsNul, pins, returns := false, false, false
-	for _, st := range eofIf.Body.List {
-		switch x := st.(type) {
-		case *ast.AssignStmt:
-			if len(x.Lhs) == 1 && len(x.Rhs) == 1 {
-				_, fld := fieldOf(info, x.Lhs[0])
-				if fld == m.ch {
-					if v, ok := constInt(info, x.Rhs[0]); ok && v == 0 {
-						setsNul = true
-					}
-				}
-				if fld != nil && fld != m.ch && isLenInput(x.Rhs[0]) {
-					pins = true
-				}
-			}
-		case *ast.ReturnStmt:
-			returns = true
-		}
-	}
-	if setsNul {
-		r.Ok(rule, f.Name(), "ch = 0 at end of input", w.Pos(eofIf.Pos()), "NUL sentinel")
-	} else {
-		r.Bad(rule, f.Name(), "ch = 0 at end of input", w.Pos(eofIf.Pos()), "the sentinel that ends every lexer loop is not set")
-	}
-	if pins && returns && eofIf.Else == nil {
-		r.Ok(rule, f.Name(), "position pinned at len(input)", w.Pos(eofIf.Pos()), "position = len(input); return -- hence input[a:position] is always in range")
-	} else {
-		r.Bad(rule, f.Name(), "position not pinned at end of input", w.Pos(eofIf.Pos()),
-			"readChar keeps advancing position after the input is exhausted; a scanner that reads past the end (readHTML's escape arm reads three bytes under a one-byte look-ahead) then slices input[start:position] out of range")
-	}
-	// the index expression is after (dominated by the false edge of) the EOF branch
-	okIdx := true
-	n := 0
-	inspectBody(f.Decl.Body, false, func(nd ast.Node) bool {
-		ix, ok := nd.(*ast.IndexExpr)
-		if !ok {
-			return true
-		}
-		if _, fld := fieldOf(info, ix.X); fld != m.input {
-			return true
-		}
-		n++
-		inElse := eofIf.Else != nil && ix.Pos() > eofIf.Else.Pos() && ix.End() <= eofIf.Else.End()
-		after := ix.Pos() > eofIf.End() && returns
-		if !inElse && !after {
-			okIdx = false
-		}
-		return true
-	})
-	if okIdx && n > 0 {
-		r.Ok(rule, f.Name(), "input indexed under the in-range test", w.Pos(f.Decl.Pos()), "after the end-of-input branch returned")
-	} else {
-		r.Bad(rule, f.Name(), "input indexed without the in-range test", w.Pos(f.Decl.Pos()), "input[readPosition] may be out of range")
-	}
-}
-
 // ---- R2 ---------------------------------------------------------------------
-
-func parserLoopsRule(r *Run, rule string) {
-	w := r.W
-	pm := w.parserModel()
-	if len(pm.problems) > 0 {
-		r.Lost(rule, "parser model: "+strings.Join(pm.problems, "; "))
-		return
-	}
-	info := pm.info
-	tv, _ := w.precedenceTable()
-	eofTest := func(e ast.Expr) bool { // curIs(EOF) / peekIs(EOF)
-		c, ok := unparen(e).(*ast.CallExpr)
-		if !ok {
-			return false
-		}
-		cal := calleeOf(info, c)
-		if cal == nil || (cal != pm.curIs.Obj && cal != pm.peekIs.Obj) {
-			return false
-		}
-		t, ok := pm.tokenArg(c)
-		return ok && t == "EOF"
-	}
-	for _, f := range w.Funcs("parser") {
-		inspectBody(f.Decl.Body, false, func(n ast.Node) bool {
-			switch l := n.(type) {
-			case *ast.RangeStmt:
-				r.Ok(rule, f.Name(), "range "+short(w.Fset, l.X), w.Pos(l.Pos()), "bounded by the length of the operand")
-			case *ast.ForStmt:
-				con := "loop " + short(w.Fset, l.Cond)
-				if l.Cond == nil {
-					r.Bad(rule, f.Name(), "loop without condition", w.Pos(l.Pos()), "an unconditional loop in the parser cannot be shown to end at EOF")
-					return true
-				}
-				// counted: i < len(x) with i++ and no write to i/x in the body
-				if be, ok := unparen(l.Cond).(*ast.BinaryExpr); ok && (be.Op == token.LSS || be.Op == token.LEQ) && l.Post != nil {
-					if inc, ok := l.Post.(*ast.IncDecStmt); ok && inc.Tok == token.INC && sameObjExpr(info, inc.X, be.X) {
-						iv := objOf(info, be.X)
-						written := false
-						inspectBody(l.Body, false, func(m ast.Node) bool {
-							if as, ok := m.(*ast.AssignStmt); ok {
-								for _, lh := range as.Lhs {
-									if objOf(info, lh) == iv {
-										written = true
-									}
-								}
-							}
-							return true
-						})
-						if !written {
-							r.Ok(rule, f.Name(), con, w.Pos(l.Pos()), "counted loop")
-							return true
-						}
-					}
-				}
-				cjs := conjuncts(l.Cond)
-				// Pratt loop
-				for _, cj := range cjs {
-					if be, ok := unparen(cj).(*ast.BinaryExpr); ok && (be.Op == token.LSS || be.Op == token.GTR) {
-						isPrec := false
-						for _, side := range []ast.Expr{be.X, be.Y} {
-							if c, ok := unparen(side).(*ast.CallExpr); ok {
-								if fi := w.FuncOf(calleeOf(info, c)); fi != nil && isMethodOf(fi, pm.typ) {
-									// a precedence lookup: indexes the table
-									uses := false
-									inspectBody(fi.Decl.Body, false, func(m ast.Node) bool {
-										if ix, ok := m.(*ast.IndexExpr); ok && objOf(info, ix.X) == tv {
-											uses = true
-										}
-										return true
-									})
-									isPrec = isPrec || uses
-								}
-							}
-						}
-						if isPrec {
-							// the table has no EOF key
-							_, lit := w.precedenceTable()
-							hasEOF := false
-							for _, e := range lit.Elts {
-								if kv, ok := e.(*ast.KeyValueExpr); ok {
-									if s, ok := constString(info, kv.Key); ok && s == "EOF" {
-										hasEOF = true
-									}
-								}
-							}
-							if hasEOF {
-								r.Bad(rule, f.Name(), con, w.Pos(l.Pos()), "EOF has a precedence level: the Pratt loop may continue at end of input")
-							} else {
-								r.Ok(rule, f.Name(), con, w.Pos(l.Pos()), "Pratt loop: EOF has no precedence level, so the strict comparison fails at end of input")
-							}
-							return true
-						}
-					}
-				}
-				// positive: every conjunct that is a token test is positive; needs consumption first thing
-				positive, negative := false, false
-				eofInCond := false
-				for _, cj := range cjs {
-					e := unparen(cj)
-					neg := false
-					if u, ok := e.(*ast.UnaryExpr); ok && u.Op == token.NOT {
-						neg = true
-						e = unparen(u.X)
-					}
-					isTok := false
-					if c, ok := e.(*ast.CallExpr); ok {
-						cal := calleeOf(info, c)
-						if cal != nil && (cal == pm.curIs.Obj || cal == pm.peekIs.Obj) {
-							isTok = true
-							if neg && eofTest(c) {
-								eofInCond = true
-							}
-						}
-					}
-					if be, ok := e.(*ast.BinaryExpr); ok && (be.Op == token.NEQ || be.Op == token.EQL) {
-						if x, fld := fieldOf(info, be.X); fld != nil && fld.Name() == "Type" {
-							if _, tf := fieldOf(info, x); tf == pm.cur || tf == pm.peek {
-								isTok = true
-								neg = be.Op == token.NEQ
-								if s, ok := constString(info, be.Y); ok && s == "EOF" && neg {
-									eofInCond = true
-								}
-							}
-						}
-					}
-					if isTok {
-						if neg {
-							negative = true
-						} else {
-							positive = true
-						}
-					}
-				}
-				switch {
-				case positive && !negative:
-					// `for peekIs(T)`: the token is there; the body must consume on every path: first statement advances
-					okCons := false
-					if len(l.Body.List) > 0 {
-						if es, ok := l.Body.List[0].(*ast.ExprStmt); ok {
-							if c, ok := es.X.(*ast.CallExpr); ok && pm.isMover(c) {
-								okCons = true
-							}
-						}
-					}
-					posTok := ""
-					for _, cj := range cjs {
-						if c, ok := unparen(cj).(*ast.CallExpr); ok {
-							if t, ok := pm.tokenArg(c); ok {
-								posTok = t
-							}
-						}
-					}
-					if okCons && posTok != "EOF" {
-						r.Ok(rule, f.Name(), con, w.Pos(l.Pos()), "positive loop on a real token; the body consumes it first")
-					} else {
-						r.Bad(rule, f.Name(), con, w.Pos(l.Pos()), "a loop that continues while a token is present must consume that token at the top of its body (and the token must not be EOF)")
-					}
-				case negative:
-					if eofInCond {
-						r.Ok(rule, f.Name(), con, w.Pos(l.Pos()), "negative loop with EOF in its condition")
-						return true
-					}
-					// EOF test in the body that returns, before the advance
-					okBody := false
-					for _, st := range l.Body.List {
-						if ifs, ok := st.(*ast.IfStmt); ok && ifs.Init == nil {
-							hasEOF := false
-							for _, d := range disjuncts(ifs.Cond) {
-								if eofTest(d) {
-									hasEOF = true
-								}
-							}
-							if hasEOF && len(ifs.Body.List) > 0 {
-								if _, isRet := ifs.Body.List[len(ifs.Body.List)-1].(*ast.ReturnStmt); isRet {
-									okBody = true
-								}
-							}
-						}
-						if es, ok := st.(*ast.ExprStmt); ok {
-							if c, ok := es.X.(*ast.CallExpr); ok && pm.isMover(c) && !okBody {
-								break
-							}
-						}
-					}
-					// or: every path through the body passes `if !expectPeek(X) { return }`
-					if !okBody {
-						for _, st := range l.Body.List {
-							if ifs, ok := st.(*ast.IfStmt); ok && isFailingExpectPeek(pm, ifs) && len(conjuncts(ifs.Cond)) == 1 {
-								okBody = true
-							}
-						}
-					}
-					if okBody {
-						r.Ok(rule, f.Name(), con, w.Pos(l.Pos()), "negative loop; the body leaves at EOF (EOF test that returns, or a failing-returns expectPeek on every path)")
-					} else {
-						r.Bad(rule, f.Name(), con, w.Pos(l.Pos()),
-							"the loop waits for a closing token but has no exit at EOF: on truncated input the lexer returns EOF forever and the loop never ends")
-					}
-				default:
-					r.Bad(rule, f.Name(), con, w.Pos(l.Pos()), "unrecognised loop shape in the parser: termination at EOF cannot be established")
-				}
-			}
-			return true
-		})
-	}
-}
-
-// isFailingExpectPeek: `if !p.expectPeek(T) [&& ...] { ...; return ... }`
-func isFailingExpectPeek(pm *parserModel, ifs *ast.IfStmt) bool {
-	if len(ifs.Body.List) == 0 {
-		return false
-	}
-	if _, isRet := ifs.Body.List[len(ifs.Body.List)-1].(*ast.ReturnStmt); !isRet {
-		return false
-	}
-	for _, cj := range conjuncts(ifs.Cond) {
-		if u, ok := unparen(cj).(*ast.UnaryExpr); ok && u.Op == token.NOT {
-			if _, ok := pm.isCallOf(u.X, pm.expectPeek); ok {
-				return true
-			}
-		}
-	}
-	return false
-}
 
 // failingCallForcesReturn: the if's body leaves the function and its condition
 // is a disjunction one of whose alternatives ends in `!call` (so that, when
